@@ -72,6 +72,21 @@ func (w *busyWriter) Write(p []byte) (int, error) {
 	return w.buf.Write(p)
 }
 
+// devFullUsable: /dev/full is the character device 1:7 and a write to it fails.
+func devFullUsable() bool {
+	st, err := os.Stat("/dev/full")
+	if err != nil || st.Mode()&os.ModeCharDevice == 0 {
+		return false
+	}
+	f, err := os.OpenFile("/dev/full", os.O_WRONLY, 0)
+	if err != nil {
+		return false
+	}
+	defer f.Close()
+	_, werr := f.Write([]byte("x"))
+	return werr != nil
+}
+
 type writerFault struct {
 	name    string
 	failAt  int
@@ -410,9 +425,27 @@ func check(c Case) error {
 			}
 			return nil
 		}},
-		{"device full (/dev/full)", func() string { return "/dev/full" }, func(p string, err error) error {
-			if _, serr := os.Stat("/dev/full"); serr != nil {
-				return nil
+		{"device full (/dev/full)", func() string {
+			// never the device node itself: the code under test runs as root, and a Save that goes through a
+			// temporary file and a rename would replace the node. A symbolic link in the scratch directory
+			// is followed by an ordinary write and merely replaced by such a rename.
+			if !devFullUsable() {
+				return ""
+			}
+			link := filepath.Join(dir, "devfull.go")
+			if os.Symlink("/dev/full", link) != nil {
+				return ""
+			}
+			return link
+		}, func(p string, err error) error {
+			if p == "" {
+				return nil // no usable /dev/full here: the cell says nothing
+			}
+			if st, serr := os.Lstat(p); serr == nil && st.Mode()&os.ModeSymlink == 0 {
+				// the link was replaced by a file: Save did not write to the target it was given
+				if err == nil {
+					return nil // a rename-based Save "succeeds" on a link; the other cells judge its bytes
+				}
 			}
 			if err == nil && (valid && refBuf.Len() > 0) {
 				return fmt.Errorf("Save to /dev/full (every write fails with ENOSPC) returned nil")
@@ -428,6 +461,10 @@ func check(c Case) error {
 	}
 	for _, ff := range faults {
 		p := ff.setup()
+		if p == "" {
+			cell("File.Save", ff.name+" (unavailable here)", valid)
+			continue
+		}
 		f, _ := build()
 		var err error
 		if perr := hx.Safe(func() error { err = f.Save(p); return nil }); perr != nil {
